@@ -28,6 +28,12 @@ def confirm(ses, v):
 
 def replay_file(path):
     d = json.load(open(path))
+    if d['replay'].get('kind') in PY_CONFIRM:
+        class _S: native_runs = 0
+        v = {'what': d['what'], 'replay': dict(d['replay'])}
+        r = PY_CONFIRM[d['replay']['kind']](_S(), v); print(json.dumps(v.get('native'), indent=1, default=str)[:4000])
+        if r: print('VIOLATION property=%s replay=%s' % (d['property'], path)); return 1
+        return 0
     out = run_native(d['replay'])
     print(json.dumps(out, indent=1)[:6000])
     if d['replay'].get('oracle'):
@@ -191,3 +197,98 @@ def confirm_builder(ses, v, want):
 
 PY_CONFIRM = {'c17_step': lambda ses, v: confirm_builder(ses, v, ('c17',)), 'c17_build_twice': lambda ses, v: confirm_builder(ses, v, ('c17',)),
               'c17_dup_build': lambda ses, v: confirm_builder(ses, v, ('c17',)), 'c13': lambda ses, v: confirm_builder(ses, v, ('c13',))}
+
+
+# ----------------------------------------------------------------------------- parser scenarios (C11, C12, C15, C16): native search guided by the solver's finding
+PAYLOADS = [{}, {'sub': 'a'}, {'sub': 'b'}, {'n': 1}, {'n': '1'}, {'a/b': 'x'}, {'sub': 'a', 'n': 1}, {'x': None}, {'x': 'v'}, {'a~b': 'y', 'sub': 'a'}]
+TIME_PAYLOADS = [{'exp': '2099-01-01T00:00:00Z'}, {'exp': '2001-01-01T00:00:00Z'}, {'exp': '2001-01-01T00:00:00+05:30'}, {'exp': '2099-01-01T00:00:00-01:00'}, {'exp': 5}, {'exp': [5]}, {'exp': ''}, {'exp': 'soon'},
+                 {'exp': True}, {'exp': None}, {}, {'nbf': '2001-01-01T00:00:00Z'}, {'nbf': '2099-01-01T00:00:00Z'}, {'nbf': '2099-01-01T00:00:00-08:00'}, {'nbf': '2001-01-01T00:00:00+05:30'}, {'nbf': True}, {'nbf': 7},
+                 {'nbf': ''}, {'nbf': {}}, {'exp': '2099-01-01T00:00:00Z', 'nbf': '2001-01-01T00:00:00Z'}, {'exp': '2019-01-01T00:00:00+00:00'}, {'nbf': '2019-01-01T00:00:00+00:00'},
+                 {'exp': '2001-01-01 00:00:00Z'}, {'exp': '2099-01-01T00:00:00.123456789Z'}]
+CHECKS = [[], [{'key': 'sub', 'value': 'a'}], [{'key': 'n', 'value': 1}], [{'key': 'n', 'value': '1'}], [{'key': 'sub', 'value': 'a'}, {'key': 'n', 'value': 1}]]
+VALIDATORS = [[], [{'key': 'x', 'kind': 'reject', 'via': 'extend'}], [{'key': 'x', 'kind': 'accept', 'via': 'extend'}], [{'key': 'x', 'kind': 'reject_if_null', 'via': 'validate'}],
+              [{'key': 'a/b', 'kind': 'reject_if_null', 'via': 'validate'}], [{'key': 'a~b', 'kind': 'reject_if_null', 'via': 'validate'}], [{'key': 'sub', 'kind': 'reject', 'via': 'validate'}],
+              [{'key': 'x', 'kind': 'accept', 'via': 'validate'}, {'key': 'y', 'kind': 'reject', 'via': 'extend'}]]
+
+
+def _rfc3339(s):
+    import datetime as dt, re
+    if not isinstance(s, str) or not re.match(r'^\d{4}-\d\d-\d\d[Tt ]\d\d:\d\d:\d\d(\.\d+)?([Zz]|[+-]\d\d:\d\d)$', s): return None
+    try:
+        s2 = re.sub(r'(\.\d{6})\d+', r'\1', s.replace(' ', 'T').replace('t', 'T').replace('Z', '+00:00').replace('z', '+00:00'))
+        return dt.datetime.fromisoformat(s2)
+    except Exception: return None
+
+
+def expected_parse(payload, checks, validators, default_parser):
+    """-> (ok: bool or None if unsure, expected validator calls)"""
+    import datetime as dt
+    now = dt.datetime.now(dt.timezone.utc)
+    vkeys = {v['key']: v for v in validators}
+    ok = True
+    for c in checks:
+        if c['key'] in vkeys: continue
+        if payload.get(c['key']) is None or payload.get(c['key']) != c['value'] or type(payload.get(c['key'])) != type(c['value']): ok = False
+    calls = {}
+    for k, v in vkeys.items():
+        val = payload.get(k); calls[k] = val
+        if v['kind'] == 'reject' or (v['kind'] == 'reject_if_null' and val is None): ok = False
+    if default_parser:
+        for k in ('exp', 'nbf'):
+            if k in vkeys: continue
+            val = payload.get(k)
+            if val is None: continue
+            t = _rfc3339(val)
+            if t is None:
+                if isinstance(val, str) and ' ' in val: return None, calls      # the library's RFC 3339 parser may or may not take a space separator
+                ok = False
+            elif k == 'exp' and t <= now: ok = False
+            elif k == 'nbf' and t >= now: ok = False
+    return ok, calls
+
+
+def confirm_parser(ses, v, time_claims=False):
+    r = v['replay']; proto = r.get('proto') or 'v4.local'
+    payloads = TIME_PAYLOADS if time_claims else PAYLOADS
+    m = {'key': '07' * 32, 'nonce': '09' * 32}
+    steps = key_steps(proto, m)
+    for i, p in enumerate(payloads):
+        steps.append({'op': 'build_core', 'proto': proto, 'key': '$k_sk', 'nonce': '09' * (24 if proto == 'v2.local' and False else 32), 'message': json.dumps(p, separators=(',', ':')), 'footer': None, 'assertion': None, 'out': 'T%d' % i})
+    runs = []
+    layers = [('prelude', True)] if time_claims else [('generic', False), ('prelude', False), ('prelude', True)]
+    for layer, dflt in layers:
+        for ci, checks in enumerate([[]] if time_claims else CHECKS):
+            for vi, vals in enumerate([[]] if time_claims else VALIDATORS):
+                if layer == 'prelude' and any(x.get('via') == 'extend' for x in vals): continue
+                orders = [list(range(len(payloads)))] + ([list(reversed(range(len(payloads))))] if not time_claims else [])
+                for order in orders:
+                    name = 'R%d' % len(runs)
+                    steps.append({'op': 'parser_run', 'proto': proto, 'layer': layer, 'default_parser': dflt, 'key': '$k_pk', 'footer': None, 'assertion': None, 'checks': checks,
+                                  'validators': vals, 'tokens': ['$T%d' % i for i in order], 'out': name})
+                    runs.append((name, layer, dflt, checks, vals, order))
+    out = run_native({'steps': steps, 'violated_if': []}); ses.native_runs = getattr(ses, 'native_runs', 0) + 1
+    tr = [t for t in (out.get('trace') or []) if 'parser_run' in t]
+    if len(tr) != len(runs): v['native'] = {'error': 'replay trace incomplete', 'out': str(out)[:500]}; return None
+    for (name, layer, dflt, checks, vals, order), t in zip(runs, tr):
+        for idx, res in zip(order, t['results']):
+            exp_ok, exp_calls = expected_parse(payloads[idx], checks, vals, dflt)
+            if exp_ok is None: continue
+            bad = None
+            if res.get('parse') == 'panic': bad = 'parse panics'
+            elif (res.get('parse') == 'ok') != exp_ok: bad = 'expected %s, library says %s (%s)' % ('Ok' if exp_ok else 'Err', res.get('parse'), str(res.get('value'))[:80])
+            elif res.get('parse') == 'ok':
+                got = {}
+                for k, val in res.get('validator_calls', []): got.setdefault(k, []).append(val)
+                for k, val in exp_calls.items():
+                    if len(got.get(k, [])) != 1: bad = 'validator for %r ran %d times on an accepted token' % (k, len(got.get(k, [])))
+                    elif json.loads(got[k][0]) != val: bad = 'validator for %r saw %s instead of %s' % (k, got[k][0], json.dumps(val))
+            if bad:
+                v['native'] = {'proto': proto, 'layer': layer, 'default_parser': dflt, 'payload': payloads[idx], 'checks': checks, 'validators': vals, 'order_position': order.index(idx), 'violated': bad}
+                v['what'] += ' [natively: %s parser, payload %s, expected claims %s, validators %s: %s]' % (layer, json.dumps(payloads[idx]), json.dumps(checks), json.dumps(vals), bad)
+                v['replay'] = {'kind': 'parser_scenarios', 'proto': proto, 'time_claims': time_claims}
+                return True
+    return False
+
+
+PY_CONFIRM.update({'c15': lambda ses, v: confirm_parser(ses, v), 'c16': lambda ses, v: confirm_parser(ses, v), 'c11': lambda ses, v: confirm_parser(ses, v, True),
+                   'c12': lambda ses, v: confirm_parser(ses, v, True)})
